@@ -15,7 +15,13 @@ ASSUMPTIONS = [
 def gen_scenario(seed, i, store):
     rng = Rng(seed * 32452843 + i)
     kind = rng.below(2)
-    if kind == 0:
+    if i % 5 in (2, 3):
+        # families with catches: a caught error keeps the process alive, and what the failed tasks and their subtrees look like stays observable
+        g = gen.WfGen(rng.fork("wf"), depth=2, max_steps=3, max_branches=3, max_acts=2, p_if=5, p_branches=60, needs=False, mixed=False,
+                      act_kinds=((gen.IRQ, 7), (gen.MSG, 2)), catches=True)
+        w = g.workflow("m1")
+        exprs = g.exprs
+    elif kind == 0:
         g = c07.DataGen(rng.fork("wf"))
         w = g.workflow("m1")
         exprs = g.exprs
@@ -28,11 +34,33 @@ def gen_scenario(seed, i, store):
         w["env"] = {"e1": rng.below(9), "region": "eu"}
     ops = [["deploy", 0], ["start", "m1", {"pid": "p1", "x": rng.below(4), "y": rng.below(4)}]]
     ops += gen.random_history(rng.fork("h"), n=rng.range(6, 14), stepped_p=20,
-                              actions=["next", "next", "submit", "skip", "abort", "error", "set_process_vars", "next"],
+                              actions=["next", "next", "submit", "skip", "abort", "error", "set_process_vars", "next"] if i % 5 != 2 else ["next", "error", "error", "next", "skip"],
                               opts_fn=lambda r, ev: ({"ecode": r.pick(["e1", "e2"]), "message": "boom"} if ev == "error" else
                                                      ({"pv": r.below(9)} if ev == "set_process_vars" else
                                                       {nm: r.below(50) for nm in ("n1", "n2", "n3", "n4") if r.chance(3, 4)})))
     ops.append(["runall"])
+    if i % 5 == 2:
+        # the process leaves the cache at quiescent points and is loaded again by the next action: a reload must not change what the engine knows
+        out = []
+        for op in ops:
+            out.append(op)
+            if op[0] == "runall" and rng.chance(1, 2):
+                out.append(["clock", rng.range(1, 500)])      # time passes: a reload must not re-stamp anything
+                out.append(["evict", "p1"])
+        ops = out
+    if i % 5 == 3:
+        # errors while other tasks are still waiting in the queue (created, not yet run): an answer creates a successor, and before the scheduler
+        # runs it another act fails
+        ops = ops[:2] + [["runall"]]
+        for _ in range(rng.range(3, 6)):
+            ops.append(["act", "next", "p1", {"open": rng.below(3)}, {"n1": rng.below(50)}])
+            if rng.chance(1, 3):
+                ops.append(["run", 0])
+            ops.append(["act", "error", "p1", {"open": rng.below(3)}, {"ecode": rng.pick(["e1", "e1", "e2"]), "message": "boom"}])
+            ops.append(["runall", rng.pick(["fifo", "lifo"]), rng.below(1 << 30)])
+        for _ in range(4):
+            ops.append(["act", "next", "p1", {"open": 0}, {}])
+            ops.append(["runall"])
     return {"id": f"c11-{seed}-{i}-{store}", "config": {"keep": True, "dump_each": True, "store": store, "rows_each": ["procs", "tasks"]}, "models": [w], "ops": ops, "exprs": exprs}
 
 
